@@ -121,3 +121,5 @@ require (
 )
 
 replace github.com/dominant-strategies/go-quai => /repo
+
+require github.com/pelletier/go-toml/v2 v2.1.0 // indirect
